@@ -7,6 +7,7 @@ CONSTANTS
   Keys <- MC_Keys
   AbsentKey = "K0"
   MaxKeyN = 3
+  MaxEntries = 65535
   SizeDomain <- MC_AllN
   FinalCompare = TRUE
   Clamp = "zero"
